@@ -186,7 +186,16 @@ func (c *checker) check(p *packet) (fs []finding) {
 	default:
 		w1, e1 := splitFrames(frames, jsonStartOf(frames[0]))
 		w2, e2 := splitFrames(frames2, jsonStartOf(frames2[0]))
-		if e1 != nil || e2 != nil || w1.header != w2.header || w1.canon != w2.canon || w1.natt != w2.natt {
+		differ := false
+		if e1 != nil || e2 != nil { // not readable (oracle 1 reports that): compare the raw bytes
+			differ = len(frames) != len(frames2)
+			for i := 0; !differ && i < len(frames); i++ {
+				differ = !bytes.Equal(frames[i], frames2[i])
+			}
+		} else {
+			differ = w1.header != w2.header || w1.canon != w2.canon || w1.natt != w2.natt
+		}
+		if differ {
 			add("second Encode of the same value yields different frames", "first Encode: %s ; second Encode of the same value: %s", showFrames(frames), showFrames(frames2))
 		}
 	}
